@@ -10,6 +10,7 @@ one detector (presence flags enumerated as paths).
 from __future__ import annotations
 
 import copy
+import os
 
 import vx
 from vx import core, symnp
@@ -299,10 +300,12 @@ def _document(det, mode, sym):
         },
     }
     readout = {"times": [s("t0"), s("t1")], "start_time": s("start"), "non_destructive": True}
+    # rarely written settings of the running mode: every one of them must arrive as written
+    outputs = {"output_folder": f"out_{mode}", "custom_dir_name": f"{mode}_sweep_", "save_data_to_file": [{"detector.image.array": ["npy"]}, {"detector.pixel.array": ["fits", "npy"]}]}
     if mode == "exposure":
-        doc["exposure"] = {"readout": readout}
+        doc["exposure"] = {"readout": readout, "outputs": outputs, "pipeline_seed": 1234}
     else:
-        doc["observation"] = {"readout": readout, "mode": "product",
+        doc["observation"] = {"readout": readout, "mode": "product", "outputs": outputs, "pipeline_seed": 4321, "with_dask": True,
                               "parameters": [{"key": "pipeline.charge_generation.g.arguments.a", "values": [s("p0"), s("p1"), s("p2")]},
                                              {"key": "detector.environment.temperature", "values": [s("q0"), s("q1")], "enabled": False}]}
     return doc
@@ -353,6 +356,12 @@ def build(det, mode):
     ro = rm.readout
     vx.prove(f"C12/build/leaf_equality/{lab}/readout", vx.all_of([ro.times.elems()[0] == made["t0"], ro.times.elems()[1] == made["t1"], len(ro.times) == 2,
                                                                   ro.start_time == made["start"], ro.non_destructive is True]))
+    out = rm.outputs
+    vx.prove(f"C12/build/leaf_equality/{lab}/mode_settings", vx.all_of([
+        out is not None, str(getattr(out, "_output_folder", "")).endswith(f"out_{mode}"), getattr(out, "_custom_dir_name", None) == f"{mode}_sweep_",
+        [dict(x) for x in (out.save_data_to_file or [])] == [{"detector.image.array": ["npy"]}, {"detector.pixel.array": ["fits", "npy"]}],
+        rm.pipeline_seed == (1234 if mode == "exposure" else 4321), (mode == "exposure") or rm.with_dask is True]),
+        outputs=repr(out)[:120], custom_dir_name=repr(getattr(out, "_custom_dir_name", None)))
     pl = conf.pipeline
     cg, pc = pl.charge_generation.models, pl.photon_collection.models
     vx.prove(f"C12/build/leaf_equality/{lab}/pipeline", vx.all_of([
@@ -476,6 +485,50 @@ def replay(oid, kwargs, model, data):
             except (ValueError, TypeError):
                 ok = False
         return ok != (n == "pair"), {"value": list(val), "accepted": ok}
+    if fn == "build":
+        import tempfile
+
+        import pyxel
+        import yaml
+
+        det, mode = kwargs["det"], kwargs["mode"]
+        made = {}
+
+        def s(name):
+            if name not in made:
+                dflt = {"roic": 0.8, "gain": 10.0, "prv": 5.0, "t0": 1.0, "t1": 2.0, "start": 0.0, "v0": 0.0, "v1": 5.0}.get(name, 0.5)
+                made[name] = float(model.get(name, dflt))
+            return made[name]
+
+        doc = _document(det, mode, s)
+        # through the real front door: the document written as a YAML file and loaded with pyxel.load
+        tmp = tempfile.mkdtemp(prefix="vx_c12_")
+        path = os.path.join(tmp, "config.yaml")
+        try:
+            with open(path, "w") as fh:
+                yaml.safe_dump(doc, fh)
+            conf = pyxel.load(path)
+        finally:
+            try:
+                os.remove(path)
+                os.rmdir(tmp)
+            except OSError:
+                pass
+        rm, d = conf.running_mode, conf.detector
+        out = rm.outputs
+        diffs = {}
+        want = {"output_folder": f"out_{mode}", "custom_dir_name": f"{mode}_sweep_", "pipeline_seed": 1234 if mode == "exposure" else 4321}
+        got = {"output_folder": os.path.basename(str(getattr(out, "_output_folder", ""))), "custom_dir_name": getattr(out, "_custom_dir_name", None), "pipeline_seed": rm.pipeline_seed}
+        for k in want:
+            if got[k] != want[k]:
+                diffs[k] = {"file_says": want[k], "loaded": got[k]}
+        if mode == "observation" and rm.with_dask is not True:
+            diffs["with_dask"] = {"file_says": True, "loaded": rm.with_dask}
+        for name, val in (("temperature", d.environment.temperature), ("total_thickness", d.geometry.total_thickness), ("quantum_efficiency", d.characteristics.quantum_efficiency)):
+            key = {"temperature": "temp", "total_thickness": "thick", "quantum_efficiency": "qe"}[name]
+            if abs(float(val) - made[key]) > 1e-12:
+                diffs[name] = {"file_says": made[key], "loaded": float(val)}
+        return bool(diffs), {"differences": diffs}
     if fn == "presence":
         import pyxel.configuration.configuration as cfg
 
